@@ -75,13 +75,15 @@ struct Tracer
 			+ std::to_string(p->GetBlockSize()) + " " + std::to_string(p->GetBlockAlignment()) + " " + std::to_string(p->mCachedCount)
 			+ " " + (pool_sane(p.get()) ? "1" : "0");
 	}
-	void ev(const std::string& e, const std::string& o)
+	// last token of every observation: what the GENERATED allocate / deallocate + pool Allocate / Deallocate must compute for this call
+	// (destination -1 = pool | raw size, pool re-created, allocCount after, mCachedCount after), "g-" for the other events
+	void ev(const std::string& e, const std::string& o, const std::string& gen = "g-")
 	{
 		if (!on) return;
 		++n_events;
 		if (events.empty()) { events = "K " + cfg; obs = "K"; }
 		events += " ; "; obs += " ; ";
-		events += e; obs += o;
+		events += e; obs += o + " " + gen;
 	}
 };
 inline Tracer& G() { static Tracer t; return t; }
@@ -233,7 +235,9 @@ struct MonT : PostLogT<PoolOf<PP>>, momo::stdish::unsynchronized_pool_allocator<
 		{
 			int b = g.nb++; g.blk[p] = b; g.info[p] = bi;
 			g.ev("A " + std::to_string(hid) + " " + std::to_string(n) + " " + std::to_string(g.allocs()),
-				dest + " " + tail() + " " + (hok ? "1" : "0") + " 1 1");
+				dest + " " + tail() + " " + (hok ? "1" : "0") + " 1 1",
+				"g" + (pooled ? std::string("-1") : std::to_string(long(bi.rawsize))) + ":" + (reparam ? "1" : "0") + ":"
+					+ std::to_string(pool->GetAllocateCount()) + ":" + std::to_string(pool->mCachedCount));
 		}
 		return p;
 	}
@@ -264,7 +268,8 @@ struct MonT : PostLogT<PoolOf<PP>>, momo::stdish::unsynchronized_pool_allocator<
 		}
 		if (!routed) ++g.misrouted;
 		g.ev("D " + std::to_string(hid) + " " + std::to_string(b) + " " + std::to_string(n) + " " + std::to_string(g.frees()),
-			dest + " " + tail() + " 1 " + (routed ? "1" : "0") + " 1");
+			dest + " " + tail() + " 1 " + (routed ? "1" : "0") + " 1",
+			"g" + (to_pool ? std::string("-1") : std::to_string(g.last_free_size())) + ":" + std::to_string(pool->GetAllocateCount()) + ":" + std::to_string(pool->mCachedCount));
 	}
 };
 template<class T> using Mon = MonT<T, momo::MemPoolParams<>>;
